@@ -1,2 +1,4 @@
 #include "c15_exec.h"
+#include "c15_flag.h"
 VH_CONFIG("st_fastcof", [](vh::Case& c) { c15::run_case<stc::Opt_fast_cofaces>(c, c15::Gen{0 != 0, 1 != 0, 0 != 0}, "fastcof"); });
+VH_CONFIG("st_flag_fastcof", [](vh::Case& c) { c15::run_flag<stc::Opt_fast_cofaces>(c, "fastcof"); });
